@@ -28,7 +28,10 @@ CFG = {'long_max_vertices': 150,   # the exact oracle is quadratic in the vertex
                    "GeoProofs/Lemmas/RELMTotal1.lean", "GeoProofs/Lemmas/RELMTotal2.lean", "GeoProofs/Lemmas/RELMTotal3.lean",
                    "GeoProofs/Lemmas/RELMTotal4.lean", "GeoProofs/Lemmas/RELMTotal5.lean",
                    "GeoProofs/Lemmas/RELM2Node.lean", "GeoProofs/Lemmas/RELM2Areal.lean", "GeoProofs/Lemmas/RELM2Locate.lean",
-                   "GeoProofs/Lemmas/RELM2Linear.lean", "GeoProofs/Lemmas/RELM2Dom.lean", "GeoProofs/Lemmas/RELM2Disjoint.lean", "GeoProofs/Lemmas/RELM2Ring.lean"],
+                   "GeoProofs/Lemmas/RELM2Linear.lean", "GeoProofs/Lemmas/RELM2Dom.lean", "GeoProofs/Lemmas/RELM2Disjoint.lean", "GeoProofs/Lemmas/RELM2Ring.lean",
+                   "GeoProofs/Lemmas/RELM3Simple.lean", "GeoProofs/Lemmas/RELM3LineString.lean", "GeoProofs/Lemmas/RELM3Nodes.lean",
+                   "GeoProofs/Lemmas/RELM3Multi.lean", "GeoProofs/Lemmas/RELM3Dom.lean", "GeoProofs/Lemmas/RELM3Coll.lean",
+                   "GeoProofs/Lemmas/RELM3Areal.lean"],
     "rule": "ordered pairs (A, B) over all 10 geometry types (Geometry enum on both sides) drawn from one shared 3..6 grid: polyomino polygons with "
             "holes (incl. holes tangent to the shell), star polygons, rectangles with holes, corner-touching multipolygons, self-avoiding lattice "
             "paths, multi line strings sharing end points (mod-2 rule), half-grid points, same-dimension collections; each case also relates the "
@@ -170,9 +173,24 @@ MANIFEST = {
             "(relateImpl_point_rows_eq_spec_of_nodes, relateImpl_point_rows_eq_spec_dom_partial), and columns Interior / Boundary of relate(B, Point p) "
             "through the two transpose laws (relateImpl_point_cols_eq_spec_dom_partial); on both paths of compute_intersection_matrix given DimsSpec of B "
             "(relateImpl_point_rows_eq_spec_both_paths_partial); a closed LineString (a ring written as a line string, simple or not): no self-check, "
-            "nothing recorded, start vertex Inside by the mod-2 rule, rows = specification (relateImpl_point_rows_eq_spec_closedLineString). Open there: B an open LineString / MultiLineString / "
-            "GeometryCollection (self-noding of a simple line string records nothing; mod-2 node labels vs the specification's end point count; graph of "
-            "disjoint members), and the Exterior row / column. The disjoint-envelope shortcut on the whole validity domain, polygons with holes "
+            "nothing recorded, start vertex Inside by the mod-2 rule, rows = specification (relateImpl_point_rows_eq_spec_closedLineString). "
+            "(11) RELM3: self-noding of a simple open line string records nothing — consecutive segments meet in one point, discarded by "
+            "is_trivial_intersection; every other pair has line_intersection = None by lineStringSimple, li_symm for the pairs visited in the other order "
+            "(selfNoding_simple_lineString_records_nothing, any arithmetic); the node map of an operand has pairwise distinct coordinates "
+            "(impl_mls_node_coordinates_distinct), so C17 mod2_rule speaks about every node; the nodes of the self-noded graph of a LINEAR operand "
+            "(Line, LineString, MultiLineString, collections of them) carry the specification's location whatever the way the members meet "
+            "(impl_nodes_carry_locate_linear: mod-2 label = parity of the specification's end-point count, a closed member counting 0 there and 2 in the "
+            "graph; recorded intersections are valid records of their edges, get Inside only where they are not boundary nodes, and every end point is a "
+            "node already); collections of linear / of point members build the graph of the flattened MultiLineString / MultiPoint and the specification "
+            "flattens them the same way. Hence rows Interior / Boundary of relate(Point p, B) = specification at EVERY p for EVERY type of B of the domain "
+            "— open and closed LineString, MultiLineString INCLUDING the K9 points (a common end point of several members is a node of the graph, so relate "
+            "never asks coordinate_position there), collections of linear, of point or of areal members (relateImpl_point_rows_eq_spec_allTypes_partial, hypothesis "
+            "pointRowsOk5 = not a collection, or a collection all of whose members are of one kind; areal members: the OnBoundary-nodes-on-rings "
+            "invariant passes through add_geometry, and a ring point of one member is not strictly inside another because collectionOk makes the cells "
+            "II/IB/BI/BB of every pair F while cell_of_located makes the cell of a common arrangement point non-F: impl_nodes_carry_locate_arealCollection), the columns of relate(B, Point p) "
+            "(relateImpl_point_cols_eq_spec_allTypes_partial) and both paths given DimsSpec (relateImpl_point_rows_eq_spec_allTypes_both_paths_partial). "
+            "Open there: collections mixing kinds (in the domain only with empty members of another kind), "
+            "and the Exterior row / column (the contributions of B's isolated edges and edge-end stars against DimsSpec-type facts of B). The disjoint-envelope shortcut on the whole validity domain, polygons with holes "
             "included: 'hole coordinates in the reported rectangle' and 'rings closed' follow from validity (C02X dom_facts), so relateImpl = relateSpec "
             "for domain operands with non-intersecting rectangles wherever HasDimensions agrees with the specification "
             "(relateImpl_disjoint_eq_spec_dom_partial; remaining hypothesis DimsSpec: interior face sample of a valid polygon, collections). "
